@@ -152,9 +152,18 @@ Tested(arms, val) == LET f == FirstMatch(arms, val) IN IF f = NoArm THEN Len(arm
 (* ------------------------------------------------------------- functions *)
 (* def = [nargs, arms]; the value the arms are matched against: the argument itself for one      *)
 (* argument, the arguments "with tuple-style structure" for several                               *)
-ArgVal(def, xs) == IF def.nargs = 1 THEN xs[1] ELSE TV([i \in 1..Len(xs) |-> xs[i].n])
+ArgVal(def, xs) ==
+  CASE def.nargs = 1 -> xs[1]
+    [] def.nargs = 2 -> TV(<<xs[1].n, xs[2].n>>)
+    [] def.nargs = 3 -> TV(<<xs[1].n, xs[2].n, xs[3].n>>)
 
-RECURSIVE Eval(_, _, _), CallVal(_, _)
+RECURSIVE Eval(_, _, _), CallVal(_, _), EvalArgs(_, _, _)
+(* argument values as an explicit tuple (a tuple is evaluated once; a function constructor would be   *)
+(* re-evaluated by TLC at every application, which is exponential along a recursion)                  *)
+EvalArgs(def, as, env) ==
+  CASE Len(as) = 1 -> <<NV(Eval(def, as[1], env))>>
+    [] Len(as) = 2 -> <<NV(Eval(def, as[1], env)), NV(Eval(def, as[2], env))>>
+    [] Len(as) = 3 -> <<NV(Eval(def, as[1], env)), NV(Eval(def, as[2], env)), NV(Eval(def, as[3], env))>>
 Eval(def, e, env) ==
   CASE e.op = "lit" -> e.c
     [] e.op = "var" -> Lookup(env, e.v).n
@@ -162,7 +171,7 @@ Eval(def, e, env) ==
     [] e.op = "sub" -> Eval(def, e.l, env) - Eval(def, e.r, env)
     [] e.op = "mul" -> Eval(def, e.l, env) * Eval(def, e.r, env)
     [] e.op = "mod" -> Eval(def, e.l, env) % Eval(def, e.r, env)
-    [] e.op = "call" -> CallVal(def, [i \in 1..Len(e.args) |-> NV(Eval(def, e.args[i], env))])
+    [] e.op = "call" -> CallVal(def, EvalArgs(def, e.args, env))
 (* value of a call with scalar results; -1 stands for "no arm matches" (an error) *)
 CallVal(def, xs) ==
   LET val == ArgVal(def, xs)
@@ -177,7 +186,7 @@ IsTailArm(def, arm) == arm.body.op = "call" /\ Len(arm.body.args) = def.nargs
 RECURSIVE CallSites(_, _, _)
 CallSites(def, e, env) ==
   CASE e.op \in {"lit", "var"} -> {}
-    [] e.op = "call" -> {[i \in 1..Len(e.args) |-> NV(Eval(def, e.args[i], env))]}
+    [] e.op = "call" -> {EvalArgs(def, e.args, env)}
                         \cup UNION {CallSites(def, e.args[i], env) : i \in 1..Len(e.args)}
     [] OTHER -> CallSites(def, e.l, env) \cup CallSites(def, e.r, env)
 
@@ -193,6 +202,18 @@ CallOutcome(def, xs) ==
 Broadcast(def, xs) == [i \in 1..Len(xs) |-> CallOutcome(def, <<NV(xs[i])>>)]
 
 (* ------------------------------------------------------ match expressions *)
+(* Deviations the implementation makes deliberately in match EXPRESSIONS (read in match_expression  *)
+(* and patterns.rs), named here rather than idealised away; the property does not define them, so   *)
+(* MC_C16 generates no case in which they apply (invariant InScope) - they are "free":               *)
+(*  (i)   OptionGuard: a pattern that is a non-variable expression evaluating to a boolean acts as a *)
+(*        guard instead of being compared with the source (applies only to boolean-valued patterns); *)
+(*  (ii)  KindAgreement: after an arm is selected, every other applicable non-wildcard arm's body is *)
+(*        evaluated once and must have the same kind (MatchArmKindMismatch otherwise);               *)
+(*  (iii) OptionSource: when the source is or contains the empty value the wildcard arm is consulted *)
+(*        before the ordered scan (coalescing);                                                      *)
+(*  (iv)  tail calls: see IsTailArm above (function arms).                                           *)
+DevOptionGuard(val)   == val.t = "bool"
+DevOptionSource(val)  == val.t = "empty"
 HasWild(arms) == \E i \in 1..Len(arms) : arms[i].pat.k = "wild"
 ArmTags(arms) == {arms[i].pat.tag : i \in {j \in 1..Len(arms) : arms[j].pat.k = "enum"}}
 (* a match must have a wildcard arm or name every variant of the enum of its source *)
@@ -213,13 +234,16 @@ GuardUnbound(arms, val) ==
      /\ \E x \in GuardVars(arms[i].guard) : ~Bound(MatchK(arms[i].pat, val).env, x)
 
 (* ------------------------------------------------------------ recurrences *)
-RECURSIVE Fact(_), Pow(_, _), Fib(_), Gcd(_, _), CountAcc(_, _)
+RECURSIVE Fact(_), Pow(_, _), Fib(_), Gcd(_, _), CountAcc(_, _), CountChunk(_, _)
 Fact(n)   == IF n = 0 THEN 1 ELSE n * Fact(n - 1)
 Pow(x, y) == IF y = 0 THEN 1 ELSE x * Pow(x, y - 1)
 Fib(n)    == IF n = 0 THEN 0 ELSE IF n = 1 THEN 1 ELSE Fib(n - 1) + Fib(n - 2)
 Gcd(a, b) == IF b = 0 THEN a ELSE Gcd(b, a % b)
 CountAcc(n, acc) == IF n = 0 THEN acc ELSE CountAcc(n - 1, acc + 1)
-Countdown(n) == CountAcc(n, 0)
+(* the same recurrence unrolled 1000 steps at a time: TLC's evaluation cost grows with the square of *)
+(* the recursion depth, so depth 50000 is evaluated as 50 nested runs of depth 1000                  *)
+CountChunk(n, acc) == IF n <= 1000 THEN CountAcc(n, acc) ELSE CountChunk(n - 1000, CountAcc(1000, acc))
+Countdown(n) == CountChunk(n, 0)
 
 (* the same recurrences as Mech function definitions (arms interpreted by CallVal) *)
 FactDef == [nargs |-> 1, arms |-> <<Arm(PLit(0), GNone, ELit(1)),
